@@ -37,6 +37,7 @@ func runRoute(t *testing.T, c spec.Case, e Em) {
 	}
 	var conns []kept
 	listenerWant := map[string]string{} // accepting side + id -> answer of that listener's server (guarded by connsMu)
+	lastDial := map[string]time.Time{}   // accepting side + id -> when the last dial to that listener got its first answer
 	var handles []*vp.AcceptHandle
 	brokers := func(dialSide string) (dm, am *plugin.MuxBroker, dg, ag *plugin.GRPCBroker) {
 		if dialSide == "host" {
@@ -93,6 +94,7 @@ func runRoute(t *testing.T, c spec.Case, e Em) {
 				}
 				if r.Conn() != nil {
 					connsMu.Lock()
+					lastDial[other(it.Dir)+fmt.Sprint(id)] = time.Now().Add(-time.Duration(r.PingMs) * time.Millisecond)
 					want := fmt.Sprintf("%d/%s", id, nonceA)
 					if it.Redial {
 						want = listenerWant[other(it.Dir)+fmt.Sprint(id)]
@@ -107,6 +109,14 @@ func runRoute(t *testing.T, c spec.Case, e Em) {
 			e.Ret(fmt.Sprintf("d%d", idx), "dial", o)
 		}
 		if it.Redial {
+			if it.AtExpiry {
+				connsMu.Lock()
+				last := lastDial[other(it.Dir)+fmt.Sprint(id)]
+				connsMu.Unlock()
+				if !last.IsZero() {
+					time.Sleep(time.Until(last.Add(5*time.Second + time.Duration(it.SkewUs)*time.Microsecond)))
+				}
+			}
 			wg.Add(1)
 			go dial()
 			wg.Wait()
